@@ -10,19 +10,25 @@ def errName : PErr → String
   | .badFlag => "badFlag"
   | .badNumber => "badNumber"
 
+def showX : XNum → String
+  | .fin q => showRat q
+  | .pinf => "inf"
+  | .ninf => "-inf"
+  | .nan => "nan"
+
 /-- `flux₀ err₀ flux₁ err₁ …` -/
-def interleave : List Rat → List Rat → List Rat
+def interleave : List XNum → List XNum → List XNum
   | f :: fs, e :: es => f :: e :: interleave fs es
   | _, _ => []
 
 /-- `parse <hex of the line>` → `S <hex name> x y n flag* flux₀ err₀ …` | `E <kind>` -/
 def opParse : Rd String := do
   let line ← textTok
-  match fromAscii parseNum line with
+  match fromAscii parsePy line with
   | .error e => pure s!"E {errName e}"
   | .ok s =>
-    pure (" ".intercalate (["S", showText s.name, showRat s.x, showRat s.y, toString s.valid.length]
-      ++ s.valid.map toString ++ (interleave s.flux s.error).map showRat))
+    pure (" ".intercalate (["S", showText s.name, showX s.x, showX s.y, toString s.valid.length]
+      ++ s.valid.map toString ++ (interleave s.flux s.error).map showX))
 
 /-- `split <hex of the line>` → `n <hex token>*` -/
 def opSplit : Rd String := do
@@ -62,11 +68,11 @@ def opRoundTrip : Rd String := do
   match toAscii fmtF5 fmtE3 s with
   | none => pure "E index"
   | some l =>
-    match fromAscii parseNum l with
+    match fromAscii parsePy l with
     | .error e => pure s!"E {errName e}"
     | .ok s =>
-      pure (" ".intercalate (["S", showText s.name, showRat s.x, showRat s.y, toString s.valid.length]
-        ++ s.valid.map toString ++ (interleave s.flux s.error).map showRat))
+      pure (" ".intercalate (["S", showText s.name, showX s.x, showX s.y, toString s.valid.length]
+        ++ s.valid.map toString ++ (interleave s.flux s.error).map showX))
 
 /-- `dict <source>` → `from_dict(to_dict(s))`: `S` when it returns the same six fields, else `E …` -/
 def opDict : Rd String := do
